@@ -770,9 +770,11 @@ def check_C12(ctx):
 def check_C19(ctx):
     ctx.rule = ("TLC enumerates every acyclic is_a relation over every subset of {1,50,118,300} and {0,1,118,119} (5 ids thorough), i.e. any number of top-level branches, terms below "
                 "several categories, below both a modifier and a phenotype branch, HP:1 not being the root, and subsets lacking HP:1 or HP:118, and derives modifier roots, categories, "
-                "is_modifier and the ascending category list of every term; each is built through Builder::build_with_defaults and through from_bytes and compared "
+                "is_modifier and the ascending category list of every term; each is built through Builder::build_with_defaults and through from_bytes (also with every non-root term flagged obsolete: the classification follows the links alone) and compared; "
+                "MC_CatsDeep adds two 75-term worlds with chains of 35 terms below a category and below a modifier root (more than 30 ancestors; category ids above / below the chain ids) "
                 "(missing root => error, not panic, not success); non-trivial = both roots present and at least one category")
-    outs = [tlc(ctx, "mc/MC_CatsA.cfg", "mc/MC_Cats.tla", workers=8)["out"], tlc(ctx, "mc/MC_CatsB.cfg", "mc/MC_Cats.tla", workers=8)["out"]]
+    outs = [tlc(ctx, "mc/MC_CatsA.cfg", "mc/MC_Cats.tla", workers=8)["out"], tlc(ctx, "mc/MC_CatsB.cfg", "mc/MC_Cats.tla", workers=8)["out"],
+            tlc(ctx, "mc/MC_CatsDeep.cfg", "mc/MC_CatsDeep.tla", workers=2)["out"]]      # terms with more than 30 ancestors, two id layouts
     if not ctx.quick:
         outs.append(tlc(ctx, "mc/MC_Cats5.cfg", "mc/MC_Cats.tla", workers=14, timeout=1800)["out"])
     s = hv(ctx, "replay-cats", prop="C19", **{"in": concat(ctx, outs, "c19-lines.txt")})
